@@ -1,5 +1,5 @@
 /-
-  C17 (b) — the tactic closing the generated per-program obligations (GenObl*.lean):
+  C17 (b) — the tactic closing the generated per-program obligations (GenP*.lean):
   `Gen.prog_k_all inputs = [eager value of every storage cell]`.
   Unfold the traced let-chains, split the list equality into one goal per cell, close each by `ring`
   (commutative-ring normalisation in the field `K`; division by a scalar is multiplication by its inverse,
